@@ -200,6 +200,7 @@ theorem query_isResolution (t : Table) (q : Query) (hv : ∀ p ∈ t.parts, ∀ 
 
 /-! ## the property -/
 
+
 /-- **Highest version wins, for every history.** For every list of operations (batches of any rows in
     any order, flushes and merges of any subsets of parts at any time) and every query over series
     ≠ 0: the result contains exactly the written keys the query covers, once each, each with a written
@@ -236,6 +237,83 @@ theorem version_wins_order_independent (cfg : Cfg) (hfix : cfg.fixedInit = true)
       intro a ha b hb
       exact ht a (List.mem_filter.1 ha).1 b (List.mem_filter.1 hb).1
     exact isResolution_unique_of_tieFree q ht' r1 r2' s1 s2
+
+/-! ## the columnar read path (`PullBatch` / `mergeBatch`) -/
+
+/-- `queryResult.mergeBatch`/`PullBatch` (batch cut as repaired by fixes/F57.diff: a full batch ends only between
+    data points) over any set of valid cursors, for ANY choice of a `Less`-minimal cursor and ANY positive batch
+    size: the concatenated batches are a version resolution of the cursor rows, strictly ordered by key. -/
+theorem queryMergeBatch_spec (q : Query) (choose : List Cursor → Nat) (hc : MinChoice q choose)
+    (maxRows : Nat) (hm : 0 < maxRows) (cs : List Cursor) (hv : ValidCursors q cs) :
+    IsResolution cs.flatten (pullAllBatch q choose maxRows true (totalRows cs + 1) cs) ∧
+      (pullAllBatch q choose maxRows true (totalRows cs + 1) cs).Pairwise (Kq q) := by
+  rw [pullAllBatch_eq_pullAll hc hm cs hv]
+  exact queryMerge_spec q choose hc cs hv
+
+/-- … and they are the rows of the row path, for every history -/
+theorem batch_path_eq_row_path (cfg : Cfg) (hfix : cfg.fixedInit = true) (hb : cfg.batchFinishRun = true)
+    (hm : 0 < cfg.batchRows) (ops : List Op) (q : Query) (h0 : ¬ (0 ∈ q.sids)) :
+    (Table.run cfg ops).queryBatch cfg q = (Table.run cfg ops).query q :=
+  tableQueryBatch_eq cfg hb hm _ q (tinv_run cfg hfix ops).valid h0
+
+/-- highest version wins on the columnar path -/
+theorem version_wins_any_history_batch (cfg : Cfg) (hfix : cfg.fixedInit = true) (hb : cfg.batchFinishRun = true)
+    (hm : 0 < cfg.batchRows) (ops : List Op) (q : Query) (h0 : ¬ (0 ∈ q.sids)) :
+    IsResolution (covered q (written ops)) ((Table.run cfg ops).queryBatch cfg q) ∧
+      ((Table.run cfg ops).queryBatch cfg q).Pairwise (Kq q) := by
+  rw [batch_path_eq_row_path cfg hfix hb hm ops q h0]
+  exact version_wins_any_history cfg hfix ops q h0
+
+def exQa : Query := { sids := [1], tmin := 0, tmax := 9, order := .timeAsc }
+
+/-- the pinned `mergeBatch` (loop condition `b.RowCount() < mergeBatchMaxRows`, finding F57) cuts a batch inside a
+    run of copies of one data point: with batches of 2 rows, the second copy of (series 1, timestamp 2) - the one
+    with the lower version - starts the next batch as a row of its own. The repaired cut returns three rows. -/
+theorem mergeBatch_legacy_counterexample :
+    pullAllBatch exQa (minIdx exQa) 2 false 5 [[exRow 1 1 1, exRow 1 2 2], [exRow 1 2 1, exRow 1 3 1]] =
+        [exRow 1 1 1, exRow 1 2 2, exRow 1 2 1, exRow 1 3 1] ∧
+    ¬ IsResolution [exRow 1 1 1, exRow 1 2 2, exRow 1 2 1, exRow 1 3 1] [exRow 1 1 1, exRow 1 2 2, exRow 1 2 1, exRow 1 3 1] ∧
+    pullAllBatch exQa (minIdx exQa) 2 true 5 [[exRow 1 1 1, exRow 1 2 2], [exRow 1 2 1, exRow 1 3 1]] =
+        [exRow 1 1 1, exRow 1 2 2, exRow 1 3 1] := by
+  refine ⟨by decide, ?_, by decide⟩
+  intro h
+  have := h.2.2
+  revert this
+  decide
+
+example : cfg.batchFinishRun = true ∧ 0 < cfg.batchRows := by decide
+
+/-! ## the liaison-side merge of node answers -/
+
+theorem nodeLe_total (desc : Bool) (a b : Row) : (nodeLe desc a b || nodeLe desc b a) = true := by
+  unfold nodeLe
+  by_cases h : a.ts = b.ts
+  · simp only [h, if_true]
+    simp only [Bool.or_eq_true, decide_eq_true_eq]
+    omega
+  · have h' : ¬ b.ts = a.ts := fun e => h e.symm
+    cases desc <;> simp only [h, h', if_false, if_true, Bool.false_eq_true, Bool.or_eq_true, decide_eq_true_eq] <;> omega
+
+theorem nodeLe_trans (desc : Bool) (a b c : Row) (h1 : nodeLe desc a b = true) (h2 : nodeLe desc b c = true) :
+    nodeLe desc a c = true := by
+  unfold nodeLe at *
+  cases desc <;> (split at h1 <;> split at h2 <;> split <;> simp at * <;> omega)
+
+/-- **Highest version wins across nodes**: the merge of the data nodes' answers holds every (series, timestamp) of any
+    answer exactly once, with a returned row of the greatest version any node returned for it, ordered by time in the
+    requested direction. (C02's "no matter which parts they live in", the parts being nodes.) -/
+theorem nodeMerge_spec (desc : Bool) (nodes : List (List Row)) :
+    IsResolution nodes.flatten (nodeMerge desc nodes) ∧
+      (nodeMerge desc nodes).Pairwise (fun a b => nodeLe desc a b = true) := by
+  have hperm : (nodeMerge desc nodes).Perm (resolve nodes.flatten) := List.mergeSort_perm _ _
+  obtain ⟨h1, h2, h3⟩ := resolve_isResolution nodes.flatten
+  refine ⟨⟨fun o ho => h1 o (hperm.mem_iff.1 ho), fun r hr => ?_, ?_⟩, ?_⟩
+  · obtain ⟨o, ho, hd⟩ := h2 r hr
+    exact ⟨o, hperm.mem_iff.2 ho, hd⟩
+  · exact (hperm.pairwise_iff (fun h hs => h ⟨hs.1.symm, hs.2.symm⟩)).2 h3
+  · exact List.pairwise_mergeSort (nodeLe_trans desc) (nodeLe_total desc) _
+
+example : resolve [[exRow 1 1 5, exRow 2 1 1], [exRow 1 1 5, exRow 2 1 3]].flatten = [exRow 1 1 5, exRow 2 1 3] := by decide
 
 /-- non-vacuity of the hypotheses: the configuration the check runs (after the F8 repair) and a
     query over non-zero series; a tie-free multiset written in two different ways -/
